@@ -202,6 +202,80 @@ def check_relaunch(scenario, prev, code, obs, r):
     return out
 
 
+def start(info, sitefile):
+    out = open(os.path.join(info["dir"], info["name"] + ".out"), "a")
+    err = open(os.path.join(info["dir"], info["name"] + ".err"), "a")
+    env = dict(os.environ, PYTEST_CURRENT_TEST="verif-r")
+    p = subprocess.Popen([PY, "-W", "ignore", TRACEKILL, info["script"], "0", "KILL", sitefile], stdout=out, stderr=err, cwd="/", env=env, close_fds=True)
+    tmp = info["pid"] + ".tmp"
+    with open(tmp, "w") as f:
+        json.dump({"type": "local", "pid": p.pid}, f)
+    os.replace(tmp, info["pid"])
+    out.close()
+    err.close()
+    return p
+
+
+def run_concurrent(root, tmpl, variant):
+    """Two launches of the same script: B waits for the job lock while A's body runs;
+    B is left alone / SIGTERMed / SIGKILLed while it waits; then A finishes."""
+    dest = os.path.join(root, "cc-%s-%d" % (variant, os.getpid()), "job")
+    shutil.rmtree(os.path.dirname(dest), ignore_errors=True)
+    os.makedirs(os.path.dirname(dest))
+    res = {"scenario": "concurrent-" + variant, "sig": {"wait": "-", "term": "TERM", "kill": "KILL"}[variant], "n": 0, "site": "lock-wait", "relaunch": []}
+    try:
+        info = clone_case(tmpl, dest)
+        base = os.path.dirname(dest)
+        a = start(info, os.path.join(base, "siteA"))
+        lp = os.path.join(info["dir"], "body.log")
+        for _ in range(400):
+            if os.path.exists(lp) and "begin" in open(lp).read():
+                break
+            time.sleep(0.05)
+        b = start(info, os.path.join(base, "siteB"))
+        time.sleep(1.2)      # B imports, installs its handlers and blocks on the lock
+        b_alive = b.poll() is None
+        if variant == "term":
+            b.send_signal(signal.SIGTERM)
+        elif variant == "kill":
+            b.kill()
+        if variant != "wait":
+            try:
+                b.wait(timeout=30)
+            except subprocess.TimeoutExpired:
+                pass
+        with open(os.path.join(info["dir"], "go"), "w") as f:
+            f.write("go")
+        codes = []
+        for p in (a, b):
+            try:
+                codes.append(p.wait(timeout=60))
+            except subprocess.TimeoutExpired:
+                p.kill()
+                p.wait()
+                codes.append("timeout")
+        obs = observe(info)
+        res.update({"code": codes, "obs": obs, "b_waited": b_alive})
+        viol = []
+        ctx = "two launches, second %s while waiting for the lock: exits=%s obs=%s" % (variant, codes, obs)
+        if "timeout" in codes:
+            viol.append(V("runner-hang", {"scenario": "concurrent"}, ctx))
+        if obs["begins"] != 1 or obs["ends"] != 1:
+            viol.append(V("concurrent-launch-reran-body", {"variant": variant, "begins": obs["begins"]}, ctx))
+        if not obs["done"]:
+            viol.append(V("concurrent-launch-lost-marker", {"variant": variant}, ctx))
+        if not obs["lock_free"]:
+            viol.append(V("lock-survives-process", {"sig": "concurrent"}, ctx))
+        code2 = launch(info, 0, "KILL", os.path.join(base, "siteR"))
+        obs2 = observe(info)
+        res["relaunch"].append({"code": code2, "obs": obs2})
+        viol += check_relaunch("ok", obs, code2, obs2, 0)
+        res["violations"] = viol
+        return res
+    finally:
+        shutil.rmtree(os.path.dirname(dest), ignore_errors=True)
+
+
 def measure(root, tmpl, scenario):
     """Number of traced line events on the path of a scenario (n=0 run)."""
     mode, pre = SCENARIOS[scenario]
@@ -232,7 +306,7 @@ def run_check(tier, base_seed, args):
     rc = 0
     try:
         tmpls = {}
-        for mode in sorted({m for m, _ in SCENARIOS.values()}):
+        for mode in sorted({m for m, _ in SCENARIOS.values()} | {"gate"}):
             tmpls[mode] = prepare_template(root, mode)
         counts = {sc: measure(root, tmpls[SCENARIOS[sc][0]], sc) for sc in SCENARIOS}
         stride = 1 if tier == "thorough" else 4
@@ -248,6 +322,7 @@ def run_check(tier, base_seed, args):
         results = []
         with ThreadPoolExecutor(max_workers=args.workers or 16) as ex:
             futs = [ex.submit(run_case, root, tmpls[SCENARIOS[sc][0]], sc, s, n, relaunches) for sc, s, n in cases]
+            futs += [ex.submit(run_concurrent, root, tmpls["gate"], v) for v in ("wait", "term", "kill")]
             for f in futs:
                 results.append(f.result())
         known = M.load_known()
@@ -279,12 +354,12 @@ def run_check(tier, base_seed, args):
             rc = 1
         wall = time.time() - t0
         sites = sorted({r["site"] for r in results if r["site"] and not r["site"].startswith("count:")})
-        outcomes = sorted({json.dumps([r["scenario"], r["sig"], r["site"], r["code"], r["obs"]], sort_keys=True) for r in results})
+        outcomes = sorted({json.dumps([r["scenario"], r["sig"], r["site"], r.get("code"), r.get("obs")], sort_keys=True) for r in results})
         total = {
             "runs": len(results), "shapes": outcomes, "steps": sum(counts.values()), "sim_time": 0.0,
             "counters": {"fault:job-SIG%s-at-line" % s: sum(1 for r in results if r["sig"] == s and r["n"] > 0) for s in sigs},
             "astates": [], "fault_free": sum(1 for r in results if r["n"] == 0), "samples": [
-                {k: r[k] for k in ("scenario", "sig", "n", "site", "code", "obs", "relaunch")} for r in results[1:4]],
+                {k: r.get(k) for k in ("scenario", "sig", "n", "site", "code", "obs", "relaunch")} for r in results[1:4]],
             "statuses": {}, "incidental": {}, "harness": [], "nviol": sum(1 for r in results if r["violations"]), "skipped": 0,
             "nontrivial": len(results),
         }
@@ -315,10 +390,13 @@ def replay(rep):
     shutil.rmtree(root, ignore_errors=True)
     os.makedirs(root)
     try:
-        mode = SCENARIOS[rep["scenario"]][0]
-        tmpl = prepare_template(root, mode)
-        res = run_case(root, tmpl, rep["scenario"], rep["sig"], rep["n"], rep.get("relaunches", 1))
-        print(json.dumps({k: res[k] for k in ("scenario", "sig", "n", "site", "code", "obs", "relaunch")}, indent=1))
+        if rep["scenario"].startswith("concurrent-"):
+            res = run_concurrent(root, prepare_template(root, "gate"), rep["scenario"].split("-", 1)[1])
+        else:
+            mode = SCENARIOS[rep["scenario"]][0]
+            tmpl = prepare_template(root, mode)
+            res = run_case(root, tmpl, rep["scenario"], rep["sig"], rep["n"], rep.get("relaunches", 1))
+        print(json.dumps({k: res.get(k) for k in ("scenario", "sig", "n", "site", "code", "obs", "relaunch")}, indent=1))
         if res["site"] != rep["site"]:
             print("REPLAY-MISMATCH: crash site %s != %s" % (res["site"], rep["site"]))
             return 2
